@@ -25,11 +25,11 @@ func init() {
 			}
 			return 2
 		},
-		Cases:       func(r *obs.Run) int { return 1 + r.Share(r.Pick(6000, 160000)) },
+		Cases:       func(r *obs.Run) int { return 1 + r.Share(r.Pick(20000, 160000)) },
 		Case:        c20Case,
 		MinDistinct: func(t string) int { return 3000 },
 		Floors: func(string) map[string]int64 {
-			return map[string]int64{"accepted_setexons": 3000, "rejected_setexons": 1000, "rejected_add": 1000, "rejected_add_spare_capacity": 300, "reverse_base_orientation": 500, "base_orientation_stops_at_unoriented_ancestor": 300, "deep_chains": 5, "tilings_checked": 5000}
+			return map[string]int64{"accepted_setexons": 3000, "rejected_setexons": 1000, "rejected_add": 1000, "rejected_add_spare_capacity": 300, "reverse_base_orientation": 500, "base_orientation_stops_at_unoriented_ancestor": 300, "reorientations": 1000, "deep_chains": 5, "tilings_checked": 5000}
 		},
 		Assumptions: []string{
 			"orientations at every orientable level are Forward or Reverse (UTR accessors are documented to panic otherwise)",
@@ -162,11 +162,13 @@ func c20Case(r *obs.Run, i int) {
 	tOff, tOri := rng.Intn(300), pm()
 	var t gene.Transcript
 	var ct *gene.CodingTranscript
+	var nct *gene.NonCodingTranscript
 	if coding {
 		ct = &gene.CodingTranscript{ID: "t", Loc: g, Offset: tOff, Orient: tOri}
 		t = ct
 	} else {
-		t = &gene.NonCodingTranscript{ID: "t", Loc: g, Offset: tOff, Orient: tOri}
+		nct = &gene.NonCodingTranscript{ID: "t", Loc: g, Offset: tOff, Orient: tOri}
+		t = nct
 	}
 	other := &gene.NonCodingTranscript{ID: "other", Loc: g, Offset: 0, Orient: feat.Forward}
 	feats = append(feats, t)
@@ -328,11 +330,35 @@ func c20Case(r *obs.Run, i int) {
 	rejected := false
 	maxEx := 1
 	for op := 0; op < nops; op++ {
-		kind := rng.Intn(6)
+		kind := rng.Intn(7)
 		if len(model) == 0 {
 			kind = 0
 		}
 		switch kind {
+		case 6: // re-orientation of one level of the chain (the fields are the caller's to assign): nothing may remember the old one
+			switch lv := rng.Intn(3); {
+			case lv == 0: // the transcript itself stays oriented
+				no := -oris[len(oris)-1]
+				if ct != nil {
+					ct.Orient = no
+				} else {
+					nct.Orient = no
+				}
+				oris[len(oris)-1] = no
+				h.Ops = append(h.Ops, fmt.Sprintf("transcript.Orient=%d", no))
+			case lv == 1 || depth == 0 || deep:
+				no := []feat.Orientation{feat.Forward, feat.Reverse, feat.NotOriented}[rng.Intn(3)]
+				g.Orient = no
+				oris[len(oris)-2] = no
+				h.Ops = append(h.Ops, fmt.Sprintf("gene.Orient=%d", no))
+			default:
+				k := rng.Intn(depth)
+				no := []feat.Orientation{feat.Forward, feat.Reverse, feat.NotOriented}[rng.Intn(3)]
+				feats[k+1].(*c20node).ori = no
+				oris[k] = no
+				h.Ops = append(h.Ops, fmt.Sprintf("region%d.ori=%d", k, no))
+			}
+			r.Count("reorientations", 1)
 		case 0, 1: // accepted SetExons
 			cut := c20Cut(r, 16)
 			in := mk(cut, t)
